@@ -30,12 +30,31 @@ fn show_expected(e: Option<&Expected>) -> String {
 /// op line: pz.factor a expected draws => c|f^e;f^e;…
 fn run_factor(ctx: &mut Ctx, a: &[BigInt], expected: &str, seed: u64, script: Vec<Vec<u8>>) {
     let pa = pz(a);
+    let _ = rust_number_theory::poly_z::verif::take_bounds();
     let (ans, log) = run_rng(seed, script, || {
         let (c, fac) = factorize(&pa);
         let v: Vec<(P, usize)> = fac.into_iter().map(|(f, e)| (f.dat, e)).collect();
         format!("{}|{}", c, show_fac(&v))
     });
     ctx.emit("pz.factor", &[show_pz(&pa), expected.to_string(), log], ans);
+    emit_bounds(ctx);
+}
+/// op line: pz.bound a => B — the modulus bound `get_factors_of_squarefree` chose for the squarefree
+/// primitive `a` (hook `poly_z::verif::take_bounds`); the driver evaluates the proved sufficient
+/// condition `boundOk a B` on it.
+fn emit_bounds(ctx: &mut Ctx) {
+    for (a, b) in rust_number_theory::poly_z::verif::take_bounds() {
+        ctx.emit("pz.bound", &[show_ints(&a)], b.to_string());
+    }
+}
+fn run_bound(ctx: &mut Ctx, a: &[BigInt]) {
+    let pa = pz(a);
+    let _ = rust_number_theory::poly_z::verif::take_bounds();
+    let _ = run_rng(0, vec![], || {
+        let _ = rust_number_theory::poly_z::verif::get_factors_of_squarefree(&pa);
+        String::new()
+    });
+    emit_bounds(ctx);
 }
 fn do_factor(ctx: &mut Ctx, a: &[BigInt], expected: Option<&Expected>) {
     let seed = ctx.rng.next();
@@ -87,6 +106,7 @@ fn do_cli(ctx: &mut Ctx, a: &[BigInt], expected: &str) {
 
 pub fn replay(ctx: &mut Ctx, f: &[&str]) -> bool {
     match (f[0], f.len()) {
+        ("pz.bound", 2) => run_bound(ctx, &parse_ints(f[1])),
         ("pz.factor", 4) => run_factor(ctx, &parse_ints(f[1]), f[2], 0, parse_chunks(f[3])),
         ("cli.pz", 3) => do_cli(ctx, &parse_ints(f[1]), f[2]),
         ("cli.pz", 2) => do_cli(ctx, &parse_ints(f[1]), "-"),
